@@ -1,5 +1,5 @@
 From BT Require Import Base.Util Base.LE Base.Float Model.RTree Model.BBIFile Model.BigWigWrite Model.BBIRead
-  Proofs.Chunks Proofs.BigWigQuery Proofs.RTreeCodec Proofs.BigWigFileChroms Proofs.BigWigFileRoundTrip Proofs.BigWigFileThms.
+  Proofs.Chunks Proofs.BigWigQuery Proofs.RTreeCodec Proofs.BigWigFileChroms Proofs.BigWigFileRoundTrip Proofs.BigWigFileThms Proofs.BigWigFileInput.
 From BT Require Properties.C01.
 Local Open Scope N_scope.
 Check (C01.C01_accept_iff : forall len vals, check_chrom len vals = Ok tt <-> wf_vals len vals).
@@ -67,3 +67,31 @@ Check (C01.C01_zero_length_boundary_refuted :
   exists sizes inp bs i c vs len,
     bw_write ieee C01.k1_opts sizes inp = Ok bs /\ read_info bs = Ok i /\ In (c, vs) (runs inp)
     /\ lookup c sizes = Some len /\ bw_interval (fun x => x) bs i c 0 len = Ok [] /\ vs <> []).
+
+Check (eq_refl : input_fields_ok = fun sizes inp =>
+  Forall (fun c : name => Forall (fun b => b <> 0) c /\ Nlen c < 4294967296) (map fst (runs inp))
+  /\ Nlen (runs inp) < 65536
+  /\ Forall (fun s : name * N => snd s < 4294967296) sizes
+  /\ Forall (fun it : item => v_bits (snd it) < 4294967296) inp).
+Check (eq_refl : vals_of = fun inp c => map snd (filter (fun it : item => name_eqb (fst it) c) inp)).
+Check (eq_refl : first_app [[1]; [2]; [1]; [3]; [2]] = [[1]; [2]; [3]]).
+Check (C01.C01_chrom_table_on_input : forall fp o sizes inp bs,
+  opts_ok o -> input_fields_ok sizes inp -> Nlen bs < U64 ->
+  bw_write fp o sizes inp = Ok bs \/ bw_write_multipass fp o sizes inp = Ok bs ->
+  NoDup (map fst (runs inp)) \/ o_sort_all o = true ->
+  forall i, read_info bs = Ok i ->
+  i_chroms i = map (fun ci => {| ci_name := fst ci; ci_id := snd ci;
+                                 ci_len := match lookup (fst ci) sizes with Some l => l | None => 0 end |})
+                   (number 0 (first_app (map fst inp)))).
+Check (C01.C01_query_on_input : forall fp o sizes inp bs,
+  opts_ok o -> input_fields_ok sizes inp -> Nlen bs < U64 ->
+  bw_write fp o sizes inp = Ok bs \/ bw_write_multipass fp o sizes inp = Ok bs ->
+  NoDup (map fst (runs inp)) \/ o_sort_all o = true ->
+  forall i infl c s e, read_info bs = Ok i -> In c (map fst inp) ->
+  bw_interval infl bs i c s e = Ok (clip_filter s e (vals_of inp c))).
+Check (C01.C01_roundtrip_on_input : forall fp o sizes inp bs,
+  opts_ok o -> input_fields_ok sizes inp -> Nlen bs < U64 ->
+  bw_write fp o sizes inp = Ok bs \/ bw_write_multipass fp o sizes inp = Ok bs ->
+  NoDup (map fst (runs inp)) \/ o_sort_all o = true ->
+  forall i infl c len, read_info bs = Ok i -> In c (map fst inp) -> lookup c sizes = Some len ->
+  bw_interval infl bs i c 0 len = Ok (filter (fun v => negb (boundary_zero len v)) (vals_of inp c))).
